@@ -101,8 +101,9 @@ func NewHostnameResults(ctx context.Context, l *slog.Logger, d time.Duration, ne
 			continue
 		}
 
-		// Save the IP address immediately
-		ips[netip.AddrPortFrom(addr, uint16(iPort))] = struct{}{}
+		// Save the IP address immediately. Unmap it like resolved addresses are, an IPv4-mapped
+		// literal must be filtered and listed as the IPv4 address it is.
+		ips[netip.AddrPortFrom(addr.Unmap(), uint16(iPort))] = struct{}{}
 	}
 	r.ips.Store(&ips)
 
